@@ -11,6 +11,7 @@ import (
 	"encoding/json"
 	"fmt"
 	"os"
+	"sort"
 	"strconv"
 	"strings"
 	"testing"
@@ -18,7 +19,9 @@ import (
 
 	"cosmossdk.io/math"
 	storetypes "cosmossdk.io/store/types"
+	"cosmossdk.io/x/feegrant"
 	"github.com/cosmos/cosmos-sdk/codec"
+	"github.com/cosmos/cosmos-sdk/crypto/keys/secp256k1"
 	sdk "github.com/cosmos/cosmos-sdk/types"
 	banktypes "github.com/cosmos/cosmos-sdk/x/bank/types"
 	minttypes "github.com/cosmos/cosmos-sdk/x/mint/types"
@@ -57,6 +60,9 @@ type genesisArgs struct {
 	Funds []int `json:"funds"`
 	Subs  []int `json:"subs"`  // class of every sub-denom slot (default plain: 1, 2)
 	NMeta *int  `json:"nmeta"` // 1: the native denom has bank metadata in genesis (default), 0: it has none
+	// fee allowances [granter, grantee] written by genesis (x/feegrant BasicAllowance without limits): the grantee
+	// may sign messages whose Metadata.Creator is the granter (x/paloma VerifyAuthorisedSignatureDecorator)
+	Grants [][]int `json:"grants"`
 }
 
 type dkey struct{ c, s int }
@@ -87,7 +93,7 @@ func envFunds() []int {
 	return fs
 }
 
-func newWorld(funds []int, subs []int, nmeta int) *world {
+func newWorld(funds []int, subs []int, nmeta int, grants [][]int) *world {
 	params := tftypes.DefaultParams() // production default: the creation fee is charged (10 GRAIN)
 	if len(params.DenomCreationFee) != 1 {
 		panic("unexpected default creation fee")
@@ -97,8 +103,23 @@ func newWorld(funds []int, subs []int, nmeta int) *world {
 	for i := 0; i < nAcc; i++ {
 		users = append(users, sdk.NewCoins(sdk.NewCoin(fee.Denom, fee.Amount.MulRaw(int64(funds[i])))))
 	}
+	userAddr := func(i int) sdk.AccAddress { // same derivation as env.NewE2 (the genesis hook runs before NewE2 returns)
+		return sdk.AccAddress(secp256k1.GenPrivKeyFromSecret([]byte(fmt.Sprintf("verif-e2-user-%d-%d", drv.Seed(), i-1))).PubKey().Address())
+	}
 	e := env.NewE2(env.E2Options{Seed: drv.Seed(), Powers: []int64{10, 10}, Users: users,
 		Genesis: func(cdc codec.Codec, gs app.GenesisState) {
+			if len(grants) > 0 {
+				var fg feegrant.GenesisState
+				cdc.MustUnmarshalJSON(gs[feegrant.ModuleName], &fg)
+				for _, p := range grants {
+					g, err := feegrant.NewGrant(userAddr(p[0]), userAddr(p[1]), &feegrant.BasicAllowance{})
+					if err != nil {
+						panic(err)
+					}
+					fg.Allowances = append(fg.Allowances, g)
+				}
+				gs[feegrant.ModuleName] = cdc.MustMarshalJSON(&fg)
+			}
 			// no inflation: the native supply is then exactly observable (set-up, listed in the evidence)
 			var mg minttypes.GenesisState
 			cdc.MustUnmarshalJSON(gs[minttypes.ModuleName], &mg)
@@ -278,7 +299,14 @@ func (w *world) observe() map[string]any {
 		n++
 	}
 	it.Close()
-	return map[string]any{"den": den, "funds": funds, "nden": n, "x": w.foreign(ctx)}
+	// fee allowances among the tracked accounts, [granter, grantee]; an allowance involving anybody else shows as -2
+	gr := [][]int{}
+	_ = e.App.FeeGrantKeeper.IterateAllFeeAllowances(ctx, func(g feegrant.Grant) bool {
+		gr = append(gr, []int{w.idxOf(g.Granter), w.idxOf(g.Grantee)})
+		return false
+	})
+	sort.Slice(gr, func(i, j int) bool { return gr[i][0] < gr[j][0] || (gr[i][0] == gr[j][0] && gr[i][1] < gr[j][1]) })
+	return map[string]any{"den": den, "funds": funds, "nden": n, "x": w.foreign(ctx), "grants": gr}
 }
 
 // foreign counts, per store, the denominations that are NOT one of the tracked literal names:
@@ -364,6 +392,7 @@ func runHistory(t *testing.T, em *drv.Emitter, h drv.History) {
 	steps := h.Steps
 	funds := envFunds()
 	subs, nmeta := []int{1, 2}, 1
+	grants := [][]int{}
 	// "Genesis" is what the generator emits; "Init" is how the recorded trace (and a replay file) names the same step
 	if len(steps) > 0 && (steps[0].Act == "Genesis" || steps[0].Act == "Init") {
 		var g genesisArgs
@@ -377,6 +406,9 @@ func runHistory(t *testing.T, em *drv.Emitter, h drv.History) {
 		if g.NMeta != nil {
 			nmeta = *g.NMeta
 		}
+		if g.Grants != nil {
+			grants = g.Grants
+		}
 		steps = steps[1:]
 	}
 	if len(funds) != nAcc {
@@ -387,7 +419,12 @@ func runHistory(t *testing.T, em *drv.Emitter, h drv.History) {
 			t.Fatalf("history %d: unknown sub-denom class %d", h.H, k)
 		}
 	}
-	w := newWorld(funds, subs, nmeta)
+	for _, p := range grants {
+		if len(p) != 2 || p[0] < 1 || p[0] > nAcc || p[1] < 1 || p[1] > nAcc {
+			t.Fatalf("history %d: bad grant %v", h.H, p)
+		}
+	}
+	w := newWorld(funds, subs, nmeta, grants)
 	defer w.e.Close()
 	e := w.e
 	// one empty block so that everything genesis does in its first begin/end blockers is behind us
@@ -396,26 +433,45 @@ func runHistory(t *testing.T, em *drv.Emitter, h drv.History) {
 	}
 	w.supply0 = e.Supply(env.BondDenom)
 	w.nativeMD, _ = e.App.BankKeeper.GetDenomMetaData(e.Ctx(), env.BondDenom)
-	em.Emit(map[string]any{"h": h.H, "i": 0, "act": "Init", "args": genesisArgs{Funds: funds, Subs: subs, NMeta: &nmeta}, "obs": w.observe(),
+	em.Emit(map[string]any{"h": h.H, "i": 0, "act": "Init", "args": genesisArgs{Funds: funds, Subs: subs, NMeta: &nmeta, Grants: grants}, "obs": w.observe(),
 		"fee": small(w.fee.Amount), "feedenom": w.fee.Denom})
 	for i, st := range steps {
 		var a args
 		if err := json.Unmarshal(st.Args, &a); err != nil {
 			t.Fatal(err)
 		}
+		ev := map[string]any{"h": h.H, "i": i + 1, "act": st.Act, "args": a, "res": "fail", "cs": "", "code": 0,
+			"nd": map[string]int{"c": 0, "s": 0}, "log": ""}
+		blockfail := func(err error) {
+			ev["res"], ev["cs"], ev["code"] = "blockfail", "block", -1
+			ev["log"] = firstLine(err.Error())
+			ev["obs"] = map[string]any{"den": []any{}, "funds": []int{}, "nden": -1, "x": []int{}, "grants": [][]int{}}
+			em.Emit(ev)
+		}
+		if st.Act == "Reimport" {
+			// genesis round trip of the whole application: ExportAppStateAndValidators, InitChain of a fresh app on
+			// a fresh database (every module's ExportGenesis -> InitGenesis), one block to commit the import
+			if err := e.Reimport(); err != nil {
+				blockfail(err)
+				return
+			}
+			if _, err := e.DeliverBlock(nil); err != nil {
+				blockfail(fmt.Errorf("first block after the import: %w", err))
+				return
+			}
+			ev["res"] = "ok"
+			ev["obs"] = w.observe()
+			em.Emit(ev)
+			continue
+		}
 		if a.Who < 1 || a.Who > nAcc {
 			t.Fatalf("history %d step %d: signer %d", h.H, i+1, a.Who)
 		}
-		ev := map[string]any{"h": h.H, "i": i + 1, "act": st.Act, "args": a, "res": "fail", "cs": "", "code": 0,
-			"nd": map[string]int{"c": 0, "s": 0}, "log": ""}
 		msg := w.msgFor(st.Act, a)
 		r, err := e.RunAs(e.User(a.Who-1), msg)
 		if err != nil {
 			// a block-level failure (panic in a blocker, consensus failure): recorded, the history ends here
-			ev["res"], ev["cs"], ev["code"] = "blockfail", "block", -1
-			ev["log"] = firstLine(err.Error())
-			ev["obs"] = map[string]any{"den": []any{}, "funds": []int{}, "nden": -1, "x": []int{}}
-			em.Emit(ev)
+			blockfail(err)
 			return
 		}
 		ev["cs"], ev["code"] = r.Codespace, int(r.Code)
